@@ -46,6 +46,11 @@ Theorem C05_map_entrywise : forall v l, rt (SMap v) (JObj l) = JObj (map (fun kv
 Proof. exact rt_map. Qed.
 Print Assumptions C05_map_entrywise.
 
+(* a second round trip changes nothing: what Marshal wrote is a fixed point (any depth; property names distinct) *)
+Theorem C05_idempotent : forall s d, names_distinct s = true -> rt s (rt s d) = rt s d.
+Proof. exact rt_idempotent. Qed.
+Print Assumptions C05_idempotent.
+
 Example C05_nonvacuous :
   let sc := SObj [(s "name", true, SStr None None []); (s "n", false, SInt None false None false None []);
                   (s "tags", false, SArr (SStr None None []) None None false); (s "m", false, SMap SBool)] in
